@@ -228,6 +228,60 @@ func c07Stats(r *Rec, d Doc) {
 
 func init() { reg("c07", checkC07) }
 
+// C07Text: the same statement for a piece that arrives as chord text: what `{bpm=..}`, `{key=..}`,
+// `{txt=..}` ... say must reach the file through `text conv | write` unchanged (astconv is part of C07's anchors).
+type C07Text struct {
+	Mode  string  `json:"mode"` // degree | syllable
+	Key   string  `json:"key"`
+	Items []PItem `json:"items"`
+}
+
+func checkC07Text(c C07Text) *Violation {
+	var sent []SItem
+	convArgs := []string{"text", "conv", c.Mode}
+	if c.Mode == "degree" {
+		sent = DegreeSentence(c.Items)
+	} else {
+		s, ok := SyllableSentence(c.Items, c.Key)
+		if !ok {
+			return vio("harness", "not expressible in %s", c.Key)
+		}
+		sent = s
+		convArgs = append(convArgs, "--key", c.Key)
+	}
+	text := Render(sent, canonStyle{})
+	conv := crd(text, convArgs...)
+	if v := cleanOutcome(conv); v != nil {
+		return v
+	}
+	if conv.Exit != 0 {
+		return vio("text-conv-rejected", "crd %s refuses %q: %s", strings.Join(convArgs, " "), text, firstLines(conv.Stderr, 2))
+	}
+	wr := crd(string(conv.Stdout), "write", "--key", c.Key)
+	if v := cleanOutcome(wr); v != nil {
+		return v
+	}
+	ctx := fmt.Sprintf("\ntext %q -> crd %s ->\n%s", text, strings.Join(convArgs, " "), clip(string(conv.Stdout), 1500))
+	if wr.Exit != 0 {
+		return vio("text-write-refused", "`crd write` refuses what `text conv` printed: %s%s", firstLines(wr.Stderr, 2), ctx)
+	}
+	_, song, err := decode(wr.Stdout)
+	if err != nil {
+		return vio("not-smf", "%v", err)
+	}
+	d := ProgressionDoc(c.Items)
+	k := c.Key
+	d.Flags.Key = &k
+	if v := compareSettings(d, song); v != nil {
+		v.Sig = "text-" + v.Sig
+		v.Msg += ctx
+		return v
+	}
+	return nil
+}
+
+func init() { reg("c07-text", checkC07Text) }
+
 func TestC07(t *testing.T) {
 	r := rec("C07")
 	defer r.Flush()
@@ -257,5 +311,26 @@ func TestC07(t *testing.T) {
 		c07Stats(r, d)
 		r.Sample(map[string]any{"args": d.Flags.Argv(), "yaml": d.YAML()})
 		r.Check(t, checkC07(c), "c07", c)
+		if coin(t, "from-text", 25) {
+			mode := rapid.SampledFrom([]string{"degree", "syllable"}).Draw(t, "mode")
+			key := rapid.SampledFrom(theory.ListedKeys).Draw(t, "key")
+			po := ProgOpts{MaxItems: pick(6, 16), Syllable: mode == "syllable", MaxNum: 9, KeyChanges: 15, Settings: 30, Texts: 50, RestPct: 25, SimpleVals: true}
+			ps := genProgression(po, key).Draw(t, "prog")
+			tc := C07Text{Mode: mode, Key: key, Items: ps}
+			nt := false
+			cls := []string{"from-chord-text"}
+			for i, p := range ps {
+				if len(p.Txt) > 0 {
+					nt = true
+					cls = append(cls, "text-metadata-in-chord-text")
+				}
+				if i > 0 && (p.BPM != nil || p.Mtr != nil || p.Key != nil || p.Vel != nil) {
+					nt = true
+					cls = append(cls, "setting-change-in-chord-text")
+				}
+			}
+			r.Case("T"+mode+key+Render(DegreeSentence(ps), canonStyle{}), nt, dedup(cls)...)
+			r.Check(t, checkC07Text(tc), "c07-text", tc)
+		}
 	})
 }
